@@ -28,6 +28,9 @@ type StreamPlan struct {
 	StartMS    int  `json:"start_ms,omitempty"`
 	PauseMS    int  `json:"pause_ms,omitempty"`
 	CloseAfter bool `json:"close_after,omitempty"`
+	// HoldReader: the accepting application stops reading this stream (after its
+	// tag) until every other stream of the session has completed
+	HoldReader bool `json:"hold_reader,omitempty"`
 }
 
 type C01Scenario struct {
@@ -115,6 +118,17 @@ func genC01(g *Gen) any {
 		for i := 0; i < k; i++ {
 			sc.Streams = append(sc.Streams, StreamPlan{SizeClass: g.Int(1, 4), SizeSeed: g.Rng.Uint64(), ReadBuf: 16384, Up: g.Int(2, 5000), Down: g.Int(0, 5000),
 				StartMS: T * g.Pick(100, 500, 900, 999), PauseMS: T * g.Pick(600, 1100, 2500), CloseAfter: g.Bool(0.3)})
+		}
+		return sc
+	}
+	if g.Bool(0.03) {
+		// a consumer that falls behind: megabytes arrive for a stream whose
+		// receiving application has stopped reading; the other streams of the
+		// session keep working meanwhile (nothing is unhealthy, nobody closed)
+		sc.Sess = SessParams{Method: byte(g.Int(0, 3)), NConn: g.Int(1, 4), InactS: 3600, Partial: g.Bool(0.3)}
+		sc.Streams = []StreamPlan{{SizeClass: 3, SizeSeed: g.Rng.Uint64(), ReadBuf: 65536, Up: g.Pick(1200000, 2500000, 4500000, 9000000), HoldReader: true}}
+		for k := g.Int(1, 3); k > 0; k-- {
+			sc.Streams = append(sc.Streams, StreamPlan{SizeClass: g.Int(1, 4), SizeSeed: g.Rng.Uint64(), ReadBuf: 16384, Up: g.Int(1, 20000), Down: g.Int(0, 20000), StartMS: g.Pick(0, 0, 1000)})
 		}
 		return sc
 	}
@@ -313,6 +327,26 @@ func (wl *streamWorkload) acceptor(stream net.Conn) {
 		return
 	}
 	st := wl.states[tag]
+	if st.plan.HoldReader {
+		others := func() bool {
+			for _, o := range wl.states {
+				if o != st && (!o.upDone || !o.downDone) {
+					return false
+				}
+			}
+			return true
+		}
+		// virtual time passes only when nothing else can run: ten minutes of it
+		// mean the other streams cannot move at all
+		for i := 0; !others() && !wl.c.Failed(); i++ {
+			if i == 600 {
+				wl.c.Fail("stream-liveness", "stuck:behind-unread-stream", "stream tag %d has unread data pending and its application is not reading; the other streams of the healthy session stopped moving for 10 virtual minutes\n%s", st.tag, wl.c.W.DumpTasks())
+				return
+			}
+			Sleep(time.Second)
+		}
+		wl.c.Probe("reader_held_until_others_done")
+	}
 	if st.plan.ViaCopyR {
 		r = wl.relayOutOf(stream)
 	}
@@ -384,6 +418,8 @@ func init() {
 		Gen:   genC01,
 		New:   func() any { return &C01Scenario{} },
 		Run:   runC01,
+		// (a cap only: the held-reader runs move megabytes, a few thousand steps a frame)
+		MaxSteps: 6000000,
 		Policy: func(g *Gen) simsync.PolicyConfig {
 			p := SwarmPolicy(g)
 			p.Stall = 0 // time passes only when nothing else can happen (inactivity timer must not fire spuriously)
